@@ -113,6 +113,20 @@ pub fn main(tier: Tier, seed: u64) -> i32 {
         let alt = vec![(0..wide).map(|i| i % 2 == 0).collect(), vec![true]];
         pubs.push(Pub { name: "wide_inputs/n2/e0".into(), case: MpcCase { circ: c.clone(), inputs: zeros.clone(), p_eval: 0, p_out: vec![0, 1], tmp_mask: 0 }, explicit: Some(vec![zeros.clone(), ones.clone(), alt.clone()]) });
         pubs.push(Pub { name: "wide_inputs/n2/e1".into(), case: MpcCase { circ: c, inputs: zeros.clone(), p_eval: 1, p_out: vec![1], tmp_mask: 0b10 }, explicit: Some(vec![zeros, ones, alt]) });
+        // many output wires (per-output encodings): 300 distinct XOR outputs, both parties output
+        // parties, either party evaluating
+        {
+            let k = 300usize;
+            let mut b = crate::circuits::B::new(&[k, k]);
+            let outs: Vec<u32> = (0..k).map(|i| b.xor(i as u32, (k + i) as u32)).collect();
+            let c = b.out(&outs);
+            let zeros = vec![vec![false; k], vec![false; k]];
+            let ones = vec![vec![true; k], vec![false; k]];
+            let alt = vec![(0..k).map(|i| i % 3 == 0).collect(), (0..k).map(|i| i % 2 == 0).collect()];
+            for p_eval in [0usize, 1] {
+                pubs.push(Pub { name: format!("many_outputs/n2/e{p_eval}"), case: MpcCase { circ: c.clone(), inputs: zeros.clone(), p_eval, p_out: vec![0, 1], tmp_mask: 0 }, explicit: Some(vec![zeros.clone(), ones.clone(), alt.clone()]) });
+            }
+        }
         let chain = crate::circuits::and_chain(2, 1001);
         let ins: Vec<Vec<Vec<bool>>> = (0..4u64).map(|m| chain.inputs_from_mask(m)).collect();
         pubs.push(Pub { name: "chain1001/n2/e0".into(), case: MpcCase { circ: chain, inputs: ins[0].clone(), p_eval: 0, p_out: vec![0, 1], tmp_mask: 0b01 }, explicit: Some(ins) });
